@@ -282,10 +282,67 @@ fn reply_text(r: &Result<(), ClusterMetaError>) -> String {
 }
 
 struct ThreadRec {
-    go: Sender<()>,
-    join: Option<JoinHandle<()>>,
+    /// pool worker running this caller (`None` = executed inline on the controller thread)
+    worker: Option<usize>,
     state: Ev,
     msg: Msg,
+}
+
+struct Job {
+    tid: usize,
+    mgr: Arc<Manager>,
+    meta: Option<ReplicatorMeta>,
+    ev_tx: Sender<(usize, Ev)>,
+}
+
+struct Worker {
+    job_tx: Sender<Job>,
+    go_tx: Sender<()>,
+    busy: bool,
+    _join: JoinHandle<()>,
+}
+
+/// OS threads that play the callers; a worker runs one `update_replicators` call at a time and is
+/// reused by later callers / cases (creating and destroying ~10^5 threads dominated the run time)
+#[derive(Default)]
+struct Pool {
+    workers: Vec<Worker>,
+}
+
+impl Pool {
+    fn acquire(&mut self, handle: &tokio::runtime::Handle) -> usize {
+        if let Some(i) = self.workers.iter().position(|w| !w.busy) {
+            self.workers[i].busy = true;
+            return i;
+        }
+        let (job_tx, job_rx) = channel::<Job>();
+        let (go_tx, go_rx) = channel::<()>();
+        let handle = handle.clone();
+        let join = std::thread::spawn(move || {
+            GO.with(|g| *g.borrow_mut() = Some(go_rx));
+            let _guard = handle.enter();
+            while let Ok(job) = job_rx.recv() {
+                let Job { tid, mgr, meta, ev_tx } = job;
+                EVTX.with(|e| *e.borrow_mut() = Some(ev_tx.clone()));
+                TID.with(|t| t.set(Some(tid)));
+                let out = match meta {
+                    None => "INVALID-CLUSTER-NAME".to_string(),
+                    Some(meta) => {
+                        match catch_unwind(AssertUnwindSafe(|| mgr.update_replicators(meta, ANNOUNCE_HOST.to_string()))) {
+                            Ok(r) => reply_text(&r),
+                            Err(_) => "PANIC".to_string(),
+                        }
+                    }
+                };
+                TID.with(|t| t.set(None));
+                EVTX.with(|e| *e.borrow_mut() = None);
+                drop(mgr);
+                let _ = ev_tx.send((tid, Ev::Done(out)));
+            }
+        });
+        self.workers.push(Worker { job_tx, go_tx, busy: true, _join: join });
+        self.workers.len() - 1
+    }
 }
 
 struct World {
@@ -294,58 +351,51 @@ struct World {
     ev_tx: Sender<(usize, Ev)>,
     ev_rx: Receiver<(usize, Ev)>,
     threads: Vec<ThreadRec>,
+    pool: Pool,
 }
 
 impl World {
-    fn new(handle: tokio::runtime::Handle) -> Self {
+    fn new(handle: tokio::runtime::Handle, pool: Pool) -> Self {
         let (ev_tx, ev_rx) = channel();
         let mgr = Arc::new(ReplicatorManager::new(Arc::new(NeverClientFactory), Arc::new(TrackedFutureRegistry::default())));
-        World { handle, mgr, ev_tx, ev_rx, threads: vec![] }
+        World { handle, mgr, ev_tx, ev_rx, threads: vec![], pool }
     }
 
     fn wait_for(&mut self, tid: usize) -> Ev {
         // spin briefly (the running thread usually reaches its next point within microseconds)
-        for _ in 0..20_000 {
+        for _ in 0..2_000 {
             if let Ok((t, ev)) = self.ev_rx.try_recv() {
                 return if t == tid { ev } else { Ev::Done(format!("SCHEDULER-ERROR event from t{} {:?}", t, ev)) };
             }
             std::hint::spin_loop();
         }
-        match self.ev_rx.recv_timeout(Duration::from_secs(20)) {
+        match self.ev_rx.recv_timeout(Duration::from_secs(60)) {
             Ok((t, ev)) if t == tid => ev,
             Ok((t, ev)) => Ev::Done(format!("SCHEDULER-ERROR event from t{} {:?}", t, ev)),
             Err(_) => Ev::Done("HANG".to_string()),
         }
     }
 
+    fn record(&mut self, tid: usize, ev: Ev) {
+        if matches!(ev, Ev::Done(_)) {
+            if let Some(w) = self.threads[tid].worker {
+                if ev != Ev::Done("HANG".to_string()) {
+                    self.pool.workers[w].busy = false;
+                }
+            }
+        }
+        self.threads[tid].state = ev;
+    }
+
     /// a thread enters `update_replicators`; returns when it is parked at its first point or has returned
     fn spawn(&mut self, msg: &Msg) -> usize {
         let tid = self.threads.len();
-        let (go_tx, go_rx) = channel();
-        let ev_tx = self.ev_tx.clone();
-        let mgr = self.mgr.clone();
-        let handle = self.handle.clone();
-        let meta = msg.to_meta();
-        let join = std::thread::spawn(move || {
-            TID.with(|t| t.set(Some(tid)));
-            GO.with(|g| *g.borrow_mut() = Some(go_rx));
-            EVTX.with(|e| *e.borrow_mut() = Some(ev_tx.clone()));
-            let _guard = handle.enter();
-            let out = match meta {
-                None => "INVALID-CLUSTER-NAME".to_string(),
-                Some(meta) => {
-                    match catch_unwind(AssertUnwindSafe(|| mgr.update_replicators(meta, ANNOUNCE_HOST.to_string()))) {
-                        Ok(r) => reply_text(&r),
-                        Err(_) => "PANIC".to_string(),
-                    }
-                }
-            };
-            TID.with(|t| t.set(None));
-            let _ = ev_tx.send((tid, Ev::Done(out)));
-        });
-        self.threads.push(ThreadRec { go: go_tx, join: Some(join), state: Ev::At("?"), msg: msg.clone() });
+        let w = self.pool.acquire(&self.handle);
+        let job = Job { tid, mgr: self.mgr.clone(), meta: msg.to_meta(), ev_tx: self.ev_tx.clone() };
+        let _ = self.pool.workers[w].job_tx.send(job);
+        self.threads.push(ThreadRec { worker: Some(w), state: Ev::At("?"), msg: msg.clone() });
         let ev = self.wait_for(tid);
-        self.threads[tid].state = ev;
+        self.record(tid, ev);
         tid
     }
 
@@ -353,7 +403,6 @@ impl World {
     /// an id): nothing else can move in between
     fn call_inline(&mut self, msg: &Msg) -> usize {
         let tid = self.threads.len();
-        let (go_tx, _go_rx) = channel();
         let _guard = self.handle.enter();
         let out = match msg.to_meta() {
             None => "INVALID-CLUSTER-NAME".to_string(),
@@ -365,7 +414,7 @@ impl World {
                 }
             }
         };
-        self.threads.push(ThreadRec { go: go_tx, join: None, state: Ev::Done(out), msg: msg.clone() });
+        self.threads.push(ThreadRec { worker: None, state: Ev::Done(out), msg: msg.clone() });
         tid
     }
 
@@ -375,9 +424,13 @@ impl World {
             Some(t) if matches!(t.state, Ev::At(_)) => {}
             _ => return false,
         }
-        let _ = self.threads[tid].go.send(());
+        let w = match self.threads[tid].worker {
+            Some(w) => w,
+            None => return false,
+        };
+        let _ = self.pool.workers[w].go_tx.send(());
         let ev = self.wait_for(tid);
-        self.threads[tid].state = ev;
+        self.record(tid, ev);
         true
     }
 
@@ -393,18 +446,13 @@ impl World {
         format!("t{} {} {}", tid, st, render_installed(&self.mgr))
     }
 
-    /// release whatever is still parked (replay files may stop anywhere) and join
+    /// release whatever is still parked (replay files may stop anywhere)
     fn finish(&mut self) {
         for tid in 0..self.threads.len() {
             let mut guard = 0;
             while matches!(self.threads[tid].state, Ev::At(_)) && guard < 8 {
                 self.step(tid);
                 guard += 1;
-            }
-            if let Some(j) = self.threads[tid].join.take() {
-                if matches!(self.threads[tid].state, Ev::Done(_)) {
-                    let _ = j.join();
-                }
             }
         }
     }
@@ -436,6 +484,7 @@ struct Case {
 struct Runner {
     s: Streams,
     rt: tokio::runtime::Runtime,
+    pool: Pool,
 }
 
 impl Runner {
@@ -444,7 +493,7 @@ impl Runner {
         let op = format!("host {}", hex(ANNOUNCE_HOST.as_bytes()));
         self.s.op(&op, "ok");
         Case {
-            w: World::new(self.rt.handle().clone()),
+            w: World::new(self.rt.handle().clone(), std::mem::take(&mut self.pool)),
             ops: vec![op],
             msgs: vec![],
             exp_epoch: 0,
@@ -780,6 +829,7 @@ impl Runner {
             self.episode_quiescent(&mut c);
         }
         c.w.finish();
+        self.pool = std::mem::take(&mut c.w.pool);
         if nontrivial && !c.failed {
             let text = c.ops.join("\n");
             self.s.stats.nontrivial_case(&text);
@@ -1081,12 +1131,12 @@ fn main() {
     install_hook();
     let mut rng = Rng::new(args.seed);
     let rt = tokio::runtime::Builder::new_multi_thread().worker_threads(1).enable_all().build().expect("runtime");
-    let mut r = Runner { s: Streams::new(&args), rt };
+    let mut r = Runner { s: Streams::new(&args), rt, pool: Pool::default() };
     if let Some(p) = &args.replay {
         let lines = read_lines(p);
         replay(&mut r, &lines);
     } else {
-        let (seq_cases, seq_len, conc_cases) = if args.thorough { (300, 40, 3000) } else { (30, 25, 250) };
+        let (seq_cases, seq_len, conc_cases) = if args.thorough { (400, 40, 6000) } else { (30, 25, 250) };
         for _ in 0..seq_cases {
             let l = seq_len / 2 + rng.below(seq_len as u64) as usize;
             sequential_case(&mut r, &mut rng, l);
@@ -1105,6 +1155,8 @@ fn main() {
         if args.thorough {
             let triples: Vec<[(u64, bool); 3]> = vec![
                 [(6, false), (7, false), (8, false)],
+                [(8, false), (7, false), (6, false)],
+                [(6, false), (6, false), (7, false)],
                 [(5, false), (6, false), (4, false)],
                 [(3, true), (6, false), (7, false)],
             ];
